@@ -451,6 +451,14 @@ def batt_cases(ctx, n_sys, faults):
             sc = copy_system(s)
             cases.append(drv_batt.run_batt(sc, batref, cutoff, p, d, len(cases), fail_at=f,
                                            ref_every=(1 if phases else 97)))
+        # the battery addressed through its rail name on the system as saved and loaded again (registries re-created in
+        # document order)
+        if brail and cap0 > 0:
+            try:
+                p, d = fresh()
+                cases.append(drv_batt.run_batt(roundtrip(copy_system(s)), brail, cutoff, p, d, len(cases), ref_every=(1 if phases else 97)))
+            except Exception:
+                pass
         # a scripted model: TLC-style monotone sequence ending dead by capacity or by voltage
         k = rng.randint(1, 6)
         seq = [(cap0 * (1 - j / (k + 1.0)), v0 * (1 - 0.02 * j), r0) for j in range(k + 1)]
